@@ -54,7 +54,14 @@ PROPS["C20"] = {"level": "exploration",
     "assumptions": ["RegularGrid is inspected through its exported fields and methods plus an overlay accessor for the private vector coordinates", "tolerances: cell overlap and bounds 1e-3 m; primitives: sum of absolute terms * 2^-20; decisions asserted only away from the decision boundary", "quads are horizontal ground planes (extents y = 0) with positive extents, coordinates bounded by 64 m"],
     "parts": [H("TestC20Grid", "grid", 1200, 60000, qs=2, ts=16, rapid=True), H("TestC20Primitives", "prim", 30000, 1000000, qs=1, ts=16), H("TestC20Shared", "shared", 1500, 20000, qs=1, ts=16)]}
 
+PROPS["C19"] = {"level": "fault_enumeration",
+    "assumptions": MODEL_ASSUME + ["part verify: independent math/big secp256k1 recoverability reference and x/crypto Keccak-256", "part forward: real ReceiptHandler loop and real net/http client against an in-process HTTP server over loopback TCP in real time; waiting is bounded, an exhausted wait is inconclusive, never a violation"],
+    "parts": [H("TestC19Verify", "verify", 2500, 60000, qs=2, ts=16), H("TestC19Forward", "forward", 25, 300, qs=2, ts=16),
+              H("TestC19Model", "H", 1500, 8000, qs=2, ts=16, hang_is_violation=True), H("TestC19Wire", "W", 200, 2000, qs=1, ts=16, hang_is_violation=True)]}
+
 META = {
+    "C19": {"text": "Four parts. verify: VerifyPayload against an independent reference (own Keccak-256 call, math/big secp256k1 recoverability) on valid triples and every single-field corruption, both directions. forward: the real HandleReceipts loop posting to an in-process credit service that is up, slow, drops the connection after reading, or is down - the multiset of POSTed bodies must equal the well-formed submissions, unchanged, once each. H/W: receipt-heavy histories against queues of capacity 1/2/128 that nobody drains - exactly one answer per submission (accepted / bad request / too busy), immediately, queue content == accepted receipts, connection stays usable.",
+            "design_ref": "DESIGN.md 4 (C19)", "note": "Trusted: the reference implementations in harness/props/c19_test.go; receipt wiring in cmd/main.go (queue size, HandleReceipts started) is outside these parts.", "technique": "property-based testing (rapid) with an independent reference implementation, plus fault injection on the forwarding path"},
     "C20": {"text": "Three generated-input oracles: (grid) insertion sequences of up to 40 quads with forced merges, merge chains and growth in all four directions, all index invariants re-checked after every insertion through exported API; (prim) Dot, Cross, normal, overlap test and ray/quad intersection against math/big.Rat evaluation of the same float32 inputs within stated tolerances; (shared) differential against a local grid fed with the same samples while members join and leave - the index must be shared and kept while the session lives. Exploration level.",
             "design_ref": "DESIGN.md 4 (C20)", "note": "Trusted: the invariant checker (harness/props/c20_test.go); float tolerances as stated; only horizontal planes are generated.", "technique": "property-based testing (rapid): data-structure invariants after every operation, exact-arithmetic reference, differential against a local instance"},
     "C03": {"text": "Two oracles over generated multi-session histories (never-joining connections, switches, returns, ids valid only elsewhere, reused session ids): (a) the reference model - nothing a connection sends shows up in a session it is not in; (b) a differential (noninterference) oracle - for every session instance T the concrete trace is re-run on a fresh server keeping only the stints of connections while they are in T, and every stint's normalised message stream (session ids masked) must be identical. Exploration level: held on every generated history; no claim of absence.",
